@@ -180,7 +180,7 @@ class CharacterClass(MutableSet[int]):
                 elif part[-1].islower():
                     self.positive |= value()
                 else:
-                    self.negative |= value()
+                    self._add_negative(value())
             elif part.startswith('\\p') or part.startswith('\\P'):
                 if self._re_unicode_ref.search(part) is None:
                     raise RegexError("wrong Unicode block specification %r" % part)
@@ -196,9 +196,18 @@ class CharacterClass(MutableSet[int]):
                     if part.startswith('\\p'):
                         self.positive |= subset
                     else:
-                        self.negative |= subset
+                        self._add_negative(subset)
             else:
                 self.positive.update(part)
+
+    def _add_negative(self, subset: UnicodeSubset) -> None:
+        """Adds the complement of a subset: ~a | ~b is the complement of a & b."""
+        if not self.negative:
+            self.negative |= subset
+        else:
+            self.negative -= self.negative - subset  # the intersection, by ranges
+            if not self.negative:
+                self.positive = UnicodeSubset([(0, maxunicode + 1)])
 
     def discard(self, charset: Union[int, str]) -> None:
         if isinstance(charset, int):
